@@ -2496,7 +2496,14 @@ void mmd_export_footnote_list_html(DString * out, const char * source, scratch_p
 			// Export footnote
 			pad(out, 2, scratch);
 
-			printf("<li id=\"fn:%d\">\n", i + 1);
+			if (scratch->extensions & EXT_RANDOM_FOOT) {
+				// Same anchor as the calls and the return link use
+				srand(scratch->random_seed_base + i + 1);
+				printf("<li id=\"fn:%d\">\n", rand() % 32000 + 1);
+			} else {
+				printf("<li id=\"fn:%d\">\n", i + 1);
+			}
+
 			scratch->padded = 6;
 
 			note = stack_peek_index(scratch->used_footnotes, i);
